@@ -1,4 +1,5 @@
 import Thanos.Model.ResultsCache
+import Thanos.Lemmas.Split
 /-
   Helper lemmas for C42 (results cache): streams, lookups through `matrixMerge`, insertion sort,
   canonical matrices.
@@ -782,5 +783,469 @@ theorem mergeResponse_spec (ps : List Piece) (h : Coherent ps) :
     constructor
     · rintro ⟨P, ⟨p, hp, rfl⟩, hx⟩; exact ⟨p, hperm.subset hp, hx⟩
     · rintro ⟨p, hp, hx⟩; exact ⟨_, ⟨p, hperm.symm.subset hp, rfl⟩, hx⟩
+
+section
+open Thanos.Split
+
+
+/-- `x` is what the downstream has for series `id` at a multiple of `step` -/
+def InData (D : Down) (step : Int) (id : Nat) (x : Sample) : Prop :=
+  id ∈ D.ids ∧ x.t % step = 0 ∧ D.f id x.t = some x.v
+
+/-- `m` is exactly the downstream's data on the multiples of `step` inside `[a, b]` -/
+structure Exact (D : Down) (step a b : Int) (m : Matrix) : Prop where
+  canon : Canon m
+  asc : ∀ s ∈ m, Asc s.2
+  mem : ∀ id x, x ∈ look m id ↔ InData D step id x ∧ a ≤ x.t ∧ x.t ≤ b
+
+def Down.Sorted (D : Down) : Prop := D.ids.Pairwise (· < ·)
+
+theorem canon_nodup {m : Matrix} (h : Canon m) : (ids m).Nodup := by
+  rw [List.nodup_iff_pairwise_ne]
+  exact h.1.imp (fun hab => by omega)
+
+theorem asc_look_of {m : Matrix} (hc : Canon m) (ha : ∀ s ∈ m, Asc s.2) (id : Nat) : Asc (look m id) := by
+  by_cases hm : id ∈ ids m
+  · obtain ⟨s, hs, hsid⟩ := List.mem_map.mp hm
+    rw [look_of_mem (canon_nodup hc) (show (id, s.2) ∈ m by rw [← hsid]; exact hs)]
+    exact ha s hs
+  · rw [look_of_not_mem hm]; exact List.Pairwise.nil
+
+/-- two exact matrices for the same range are equal -/
+theorem Exact.unique {D : Down} {step a b : Int} {m1 m2 : Matrix} (h1 : Exact D step a b m1) (h2 : Exact D step a b m2) :
+    m1 = m2 := by
+  apply canon_ext h1.canon h2.canon
+  intro id
+  apply asc_ext (asc_look_of h1.canon h1.asc id) (asc_look_of h2.canon h2.asc id)
+  intro x
+  rw [h1.mem, h2.mem]
+
+/-- the samples the downstream returns for one series on a grid -/
+def samplesOn (f : Int → Option Int) (T : List Int) : List Sample := T.filterMap fun t => (f t).map (Sample.mk t)
+
+theorem mem_samplesOn {f : Int → Option Int} {T : List Int} {x : Sample} :
+    x ∈ samplesOn f T ↔ x.t ∈ T ∧ f x.t = some x.v := by
+  unfold samplesOn
+  simp only [List.mem_filterMap, Option.map_eq_some_iff]
+  constructor
+  · rintro ⟨t, ht, v, hv, rfl⟩; exact ⟨ht, hv⟩
+  · rintro ⟨ht, hv⟩; exact ⟨x.t, ht, x.v, hv, rfl⟩
+
+theorem asc_samplesOn {f : Int → Option Int} {T : List Int} (hT : T.Pairwise (· < ·)) : Asc (samplesOn f T) := by
+  unfold samplesOn Asc
+  rw [List.pairwise_filterMap]
+  refine hT.imp ?_
+  intro a b hab x hx y hy
+  simp only [Option.map_eq_some_iff] at hx hy
+  obtain ⟨_, _, rfl⟩ := hx
+  obtain ⟨_, _, rfl⟩ := hy
+  exact hab
+
+theorem evalD_eq (D : Down) (start stop step : Int) :
+    evalD D start stop step = D.ids.filterMap fun id =>
+      match samplesOn (D.f id) (grid start stop step) with
+      | [] => none
+      | s => some (id, s) := rfl
+
+theorem look_filterMap_ids (g : Nat → List Sample) : ∀ (l : List Nat), l.Nodup → ∀ id,
+    look (l.filterMap fun i => match g i with | [] => none | s => some (i, s)) id = if id ∈ l then g id else []
+  | [], _, id => by simp [look_nil]
+  | i :: l, hnd, id => by
+    have hn := List.nodup_cons.mp hnd
+    have ih := look_filterMap_ids g l hn.2 id
+    simp only [List.filterMap_cons]
+    cases hg : g i with
+    | nil =>
+      simp only
+      rw [ih]
+      by_cases hi : id = i
+      · subst hi; simp [hn.1, hg]
+      · simp [hi]
+    | cons y ys =>
+      simp only
+      rw [look_cons, ih]
+      by_cases hi : i = id
+      · subst hi; simp [hg]
+      · have : ¬ id = i := fun e => hi e.symm
+        simp [hi, this]
+
+theorem ids_filterMap_sub (g : Nat → List Sample) (l : List Nat) :
+    (ids (l.filterMap fun i => match g i with | [] => none | s => some (i, s))).Sublist l := by
+  induction l with
+  | nil => simp [ids]
+  | cons i l ih =>
+    simp only [List.filterMap_cons]
+    cases hg : g i with
+    | nil => simp only; exact ih.cons _
+    | cons y ys => simp only [ids_cons]; exact ih.cons_cons _
+
+/-- the downstream's answer to an aligned range query is exact -/
+theorem evalD_exact (D : Down) (hD : D.Sorted) (step a b : Int) (hs : 0 < step) (ha : a % step = 0) :
+    Exact D step a b (evalD D a b step) := by
+  rw [evalD_eq]
+  have hnd : D.ids.Nodup := by
+    rw [List.nodup_iff_pairwise_ne]; exact hD.imp (fun h => by omega)
+  refine ⟨⟨List.Pairwise.sublist (ids_filterMap_sub _ _) hD, ?_⟩, ?_, ?_⟩
+  · intro s hs'
+    simp only [List.mem_filterMap] at hs'
+    obtain ⟨i, _, hi⟩ := hs'
+    cases hg : samplesOn (D.f i) (grid a b step) with
+    | nil => simp [hg] at hi
+    | cons y ys => simp [hg] at hi; subst hi; simp
+  · intro s hs'
+    simp only [List.mem_filterMap] at hs'
+    obtain ⟨i, _, hi⟩ := hs'
+    cases hg : samplesOn (D.f i) (grid a b step) with
+    | nil => simp [hg] at hi
+    | cons y ys =>
+      simp [hg] at hi; subst hi
+      simp only
+      rw [← hg]
+      exact asc_samplesOn (grid_pairwise hs)
+  · intro id x
+    rw [look_filterMap_ids (fun i => samplesOn (D.f i) (grid a b step)) D.ids hnd id]
+    by_cases hid : id ∈ D.ids
+    · simp only [hid, if_true, mem_samplesOn, mem_grid hs, InData, true_and]
+      have hmod : (x.t - a) % step = 0 ↔ x.t % step = 0 := by
+        rw [Int.sub_emod, ha]; simp
+      constructor
+      · rintro ⟨⟨h1, h2, h3⟩, h4⟩; exact ⟨⟨hmod.mp h3, h4⟩, h1, h2⟩
+      · rintro ⟨⟨h3, h4⟩, h1, h2⟩; exact ⟨⟨h1, h2, hmod.mpr h3⟩, h4⟩
+    · simp [hid, InData]
+
+end
+
+theorem look_extract (a' b' st : Int) : ∀ (m : Matrix), (ids m).Nodup → ∀ id,
+    look (extract a' b' st m) id = (look m id).filter fun x => atStep a' b' st x.t
+  | [], _, id => by simp [extract, look_nil]
+  | s :: m, hnd, id => by
+    rw [ids_cons] at hnd
+    have hn := List.nodup_cons.mp hnd
+    have ih := look_extract a' b' st m hn.2 id
+    unfold extract at ih ⊢
+    simp only [List.filterMap_cons]
+    rw [look_cons]
+    cases hf : s.2.filter (fun x => atStep a' b' st x.t) with
+    | nil =>
+      simp only
+      rw [ih]
+      by_cases hs : s.1 = id
+      · subst hs
+        simp [hf, look_of_not_mem hn.1]
+      · simp [hs]
+    | cons y ys =>
+      simp only
+      rw [look_cons, ih]
+      by_cases hs : s.1 = id
+      · simp [hs, hf]
+      · simp [hs]
+
+theorem ids_extract_sub (a' b' st : Int) (m : Matrix) : (ids (extract a' b' st m)).Sublist (ids m) := by
+  induction m with
+  | nil => simp [extract, ids]
+  | cons s m ih =>
+    unfold extract at ih ⊢
+    simp only [List.filterMap_cons]
+    cases hf : s.2.filter (fun x => atStep a' b' st x.t) with
+    | nil => simp only [ids_cons]; exact ih.cons _
+    | cons y ys => simp only [ids_cons]; exact ih.cons_cons _
+
+theorem mem_extract {a' b' st : Int} {m : Matrix} {s : Stream} (h : s ∈ extract a' b' st m) :
+    s.2 ≠ [] ∧ ∃ s0 ∈ m, s.1 = s0.1 ∧ s.2 = s0.2.filter fun x => atStep a' b' st x.t := by
+  unfold extract at h
+  simp only [List.mem_filterMap] at h
+  obtain ⟨s0, hs0, hs⟩ := h
+  cases hf : s0.2.filter (fun x => atStep a' b' st x.t) with
+  | nil => simp [hf] at hs
+  | cons y ys =>
+    simp [hf] at hs
+    subst hs
+    exact ⟨by simp, s0, hs0, rfl, hf.symm⟩
+
+theorem atStep_zero (a' b' t : Int) : atStep a' b' 0 t = true ↔ a' ≤ t ∧ t ≤ b' := by
+  unfold atStep
+  by_cases h : t < a' ∨ t > b'
+  · simp [h]; omega
+  · simp [h]; omega
+
+/-- `Extract(start, end, ·)` of an exact response is exact on the intersection -/
+theorem extract_exact {D : Down} {step a b : Int} {m : Matrix} (h : Exact D step a b m) (a' b' : Int) :
+    Exact D step (max a a') (min b b') (extract a' b' 0 m) := by
+  have hnd := canon_nodup h.canon
+  refine ⟨⟨List.Pairwise.sublist (ids_extract_sub _ _ _ _) h.canon.1, fun s hs => (mem_extract hs).1⟩, ?_, ?_⟩
+  · intro s hs
+    obtain ⟨_, s0, hs0, _, heq⟩ := mem_extract hs
+    rw [heq]
+    exact List.Pairwise.filter _ (h.asc s0 hs0)
+  · intro id x
+    rw [look_extract _ _ _ _ hnd, List.mem_filter, h.mem, atStep_zero]
+    constructor
+    · rintro ⟨⟨h1, h2, h3⟩, h4, h5⟩; exact ⟨h1, by omega, by omega⟩
+    · rintro ⟨h1, h2, h3⟩; exact ⟨⟨h1, by omega, by omega⟩, by omega, by omega⟩
+
+/-- exact responses are coherent -/
+theorem coherent_of_exact {D : Down} {step : Int} {ps : List Piece}
+    (h : ∀ p ∈ ps, 0 ≤ p.a ∧ Exact D step p.a p.b p.m) : Coherent ps := by
+  refine ⟨fun p hp => (h p hp).1, fun p hp => canon_nodup (h p hp).2.canon,
+    fun p hp s hs => ⟨(h p hp).2.canon.2 s hs, (h p hp).2.asc s hs⟩, ?_, ?_⟩
+  · intro p hp s hs x hx
+    have hl : look p.m s.1 = s.2 := look_of_mem (canon_nodup (h p hp).2.canon) (show (s.1, s.2) ∈ p.m from hs)
+    have := ((h p hp).2.mem s.1 x).mp (by rw [hl]; exact hx)
+    exact this.2
+  · intro p hp q hq id x hx h1 h2
+    have := ((h p hp).2.mem id x).mp hx
+    exact ((h q hq).2.mem id x).mpr ⟨this.1, h1, h2⟩
+
+/-- **merging exact responses whose ranges cover `[A, B]`** gives the exact response for `[A, B]` -/
+theorem merge_exact {D : Down} {step A B : Int} {ps : List Piece}
+    (h : ∀ p ∈ ps, 0 ≤ p.a ∧ Exact D step p.a p.b p.m)
+    (hin : ∀ p ∈ ps, A ≤ p.a ∧ p.b ≤ B)
+    (hcover : ∀ t, A ≤ t → t ≤ B → t % step = 0 → ∃ p ∈ ps, p.a ≤ t ∧ t ≤ p.b) :
+    Exact D step A B (mergeResponse true (ps.map (·.m))) := by
+  obtain ⟨hcanon, hlook⟩ := mergeResponse_spec ps (coherent_of_exact h)
+  refine ⟨hcanon, ?_, ?_⟩
+  · intro s hs
+    have hl : look _ s.1 = s.2 := look_of_mem (canon_nodup hcanon) (show (s.1, s.2) ∈ _ from hs)
+    rw [← hl]; exact (hlook s.1).1
+  · intro id x
+    rw [(hlook id).2 x]
+    constructor
+    · rintro ⟨p, hp, hx⟩
+      have h1 := ((h p hp).2.mem id x).mp hx
+      have h2 := hin p hp
+      exact ⟨h1.1, by omega, by omega⟩
+    · rintro ⟨hd, h1, h2⟩
+      obtain ⟨p, hp, h3, h4⟩ := hcover x.t h1 h2 hd.2.1
+      exact ⟨p, hp, ((h p hp).2.mem id x).mpr ⟨hd, h3, h4⟩⟩
+
+/-- what StepAlign establishes: a positive step dividing both ends -/
+def Aligned (r : Req) : Prop :=
+  0 < r.step ∧ 0 ≤ r.start ∧ r.start ≤ r.stop ∧ r.start % r.step = 0 ∧ r.stop % r.step = 0
+
+/-- a cached extent holds exactly the downstream's data on its (aligned) range -/
+def GoodExtent (D : Down) (step : Int) (e : Extent) : Prop :=
+  0 ≤ e.start ∧ e.start ≤ e.stop ∧ e.start % step = 0 ∧ e.stop % step = 0 ∧ Exact D step e.start e.stop e.resp
+
+/-- the cached parts of a partition with their ranges -/
+def PiecesOK (D : Down) (req : Req) (ps : List Piece) : Prop :=
+  ∀ p ∈ ps, 0 ≤ p.a ∧ Exact D req.step p.a p.b p.m ∧ req.start ≤ p.a ∧ p.b ≤ req.stop
+
+def ReqsOK (req : Req) (rs : List Req) : Prop :=
+  ∀ r ∈ rs, r.step = req.step ∧ req.start ≤ r.start ∧ r.start % req.step = 0 ∧ r.stop ≤ req.stop ∧
+    r.start ≤ r.stop ∧ r.stop % req.step = 0
+
+/-- timestamp `t` lies in a cached part or in a sub-request -/
+def Covered (ps : List Piece) (rs : List Req) (t : Int) : Prop :=
+  (∃ p ∈ ps, p.a ≤ t ∧ t ≤ p.b) ∨ (∃ r ∈ rs, r.start ≤ t ∧ t ≤ r.stop)
+
+theorem Covered.mono {ps ps' : List Piece} {rs rs' : List Req} {t : Int} (h : Covered ps rs t)
+    (hp : ∀ p ∈ ps, p ∈ ps') (hr : ∀ r ∈ rs, r ∈ rs') : Covered ps' rs' t := by
+  rcases h with ⟨p, hp', h⟩ | ⟨r, hr', h⟩
+  · exact Or.inl ⟨p, hp p hp', h⟩
+  · exact Or.inr ⟨r, hr r hr', h⟩
+
+/-- loop invariant of `partition` (any-step mode): everything on the grid before the moving
+    `start` is covered, and `start` itself once an extent has been used -/
+structure PInv (D : Down) (req : Req) (start : Int) (rs : List Req) (ps : List Piece) : Prop where
+  pieces : PiecesOK D req ps
+  reqs : ReqsOK req rs
+  lo : req.start ≤ start
+  al : start % req.step = 0
+  cov : ∀ t, req.start ≤ t → t ≤ req.stop → t % req.step = 0 → (t < start ∨ (t = start ∧ ps ≠ [])) → Covered ps rs t
+  fresh : ps = [] → start = req.start ∧ rs = []
+
+theorem partitionLoop_spec (cfg : Cfg) (D : Down) (req : Req) (hreq : Aligned req) :
+    ∀ (exts : List Extent), (∀ e ∈ exts, GoodExtent D req.step e) →
+    ∀ (start : Int) (rs : List Req) (ps : List Piece), PInv D req start rs ps →
+      ∃ start' rs' ps', partitionLoop cfg req false exts start rs (ps.map (·.m)) = (start', rs', ps'.map (·.m)) ∧
+        PInv D req start' rs' ps'
+  | [], _, start, rs, ps, hinv => ⟨start, rs, ps, rfl, hinv⟩
+  | e :: es, hgood, start, rs, ps, hinv => by
+    have hes : ∀ e' ∈ es, GoodExtent D req.step e' := fun e' he' => hgood e' (List.mem_cons_of_mem _ he')
+    obtain ⟨he0, hele, hea, heb, hex⟩ := hgood e (by simp)
+    obtain ⟨hstep, hr0, hrle, hra, hrb⟩ := hreq
+    unfold partitionLoop
+    by_cases h1 : e.stop < start ∨ e.start > req.stop
+    · rw [if_pos h1]
+      exact partitionLoop_spec cfg D req ⟨hstep, hr0, hrle, hra, hrb⟩ es hes start rs ps hinv
+    · rw [if_neg h1]
+      by_cases h2 : req.start ≠ req.stop ∧ req.stop - req.start > minCacheExtent ∧ e.stop - e.start < minCacheExtent
+      · rw [if_pos h2]
+        exact partitionLoop_spec cfg D req ⟨hstep, hr0, hrle, hra, hrb⟩ es hes start rs ps hinv
+      · rw [if_neg h2]
+        have ho1 : start ≤ e.stop := by omega
+        have ho2 : e.start ≤ req.stop := by omega
+        -- the new state
+        let rs1 : List Req := if start < e.start then rs ++ [⟨start, e.start, req.step⟩] else rs
+        let piece : Piece := ⟨max e.start start, min e.stop req.stop, extract start req.stop 0 e.resp⟩
+        have hpm : (ps ++ [piece]).map (·.m) = ps.map (·.m) ++ [extract start req.stop 0 e.resp] := by simp [piece]
+        have hnext : (if false = true ∧ cfg.gridFix = true ∧ req.step > 0 then e.stop - (e.stop - req.start).tmod req.step else e.stop) = e.stop := by simp
+        have hinv' : PInv D req e.stop rs1 (ps ++ [piece]) := by
+          have hpex : Exact D req.step (max e.start start) (min e.stop req.stop) (extract start req.stop 0 e.resp) :=
+            extract_exact hex start req.stop
+          refine ⟨?_, ?_, by have := hinv.lo; omega, heb, ?_, by simp⟩
+          · intro p hp
+            rcases List.mem_append.mp hp with hp | hp
+            · exact hinv.pieces p hp
+            · simp at hp; subst hp
+              have := hinv.lo
+              exact ⟨by simp [piece]; omega, hpex, by simp [piece]; omega, by simp [piece]; omega⟩
+          · intro r hr
+            by_cases hlt : start < e.start
+            · simp only [rs1, hlt, if_true] at hr
+              rcases List.mem_append.mp hr with hr | hr
+              · exact hinv.reqs r hr
+              · simp at hr; subst hr
+                exact ⟨rfl, hinv.lo, hinv.al, ho2, by simp; omega, hea⟩
+            · simp only [rs1, hlt, if_false] at hr
+              exact hinv.reqs r hr
+          · intro t ht1 ht2 ht3 _
+            by_cases hts : t < start ∨ (t = start ∧ ps ≠ [])
+            · refine (hinv.cov t ht1 ht2 ht3 hts).mono (fun p hp => List.mem_append_left _ hp) ?_
+              intro r hr
+              by_cases hlt : start < e.start
+              · simp only [rs1, hlt, if_true]; exact List.mem_append_left _ hr
+              · simp only [rs1, hlt, if_false]; exact hr
+            · have hge : start ≤ t := by omega
+              rename_i hcase
+              have hte : t ≤ e.stop := by omega
+              by_cases hin : e.start ≤ t
+              · exact Or.inl ⟨piece, by simp, by simp [piece]; omega, by simp [piece]; omega⟩
+              · have hlt : start < e.start := by omega
+                refine Or.inr ⟨⟨start, e.start, req.step⟩, ?_, hge, by simp; omega⟩
+                simp only [rs1, hlt, if_true]
+                simp
+        obtain ⟨start', rs', ps', heq, hfin⟩ := partitionLoop_spec cfg D req ⟨hstep, hr0, hrle, hra, hrb⟩ es hes e.stop rs1 (ps ++ [piece]) hinv'
+        refine ⟨start', rs', ps', ?_, hfin⟩
+        rw [← heq, hpm]
+        simp only [Bool.false_eq_true, false_and, if_false]
+        rfl
+
+/-- the sub-requests of a partition, answered by the downstream, as pieces -/
+def fetchedPieces (D : Down) (rs : List Req) : List Piece :=
+  rs.map fun r => ⟨r.start, r.stop, evalD D r.start r.stop r.step⟩
+
+theorem partition_spec (cfg : Cfg) (D : Down) (hD : D.Sorted) (req : Req) (hreq : Aligned req)
+    (exts : List Extent) (hgood : ∀ e ∈ exts, GoodExtent D req.step e) :
+    ∃ rs ps, partition cfg req false exts = (rs, ps.map (·.m)) ∧
+      (∀ p ∈ ps ++ fetchedPieces D rs, 0 ≤ p.a ∧ Exact D req.step p.a p.b p.m) ∧
+      (∀ p ∈ ps ++ fetchedPieces D rs, req.start ≤ p.a ∧ p.b ≤ req.stop) ∧
+      (∀ t, req.start ≤ t → t ≤ req.stop → t % req.step = 0 → ∃ p ∈ ps ++ fetchedPieces D rs, p.a ≤ t ∧ t ≤ p.b) ∧
+      (∀ r ∈ rs, r.step = req.step ∧ 0 ≤ r.start ∧ r.start % req.step = 0 ∧ req.start ≤ r.start ∧ r.stop ≤ req.stop ∧
+        r.start ≤ r.stop ∧ r.stop % req.step = 0) := by
+  have hreq' := hreq
+  obtain ⟨hstep, hr0, hrle, hra, hrb⟩ := hreq
+  have hinit : PInv D req req.start [] [] :=
+    ⟨by intro p hp; simp at hp, by intro r hr; simp at hr, Int.le_refl _, hra,
+     by intro t _ _ _ h; rcases h with h | h; omega; exact absurd rfl h.2, fun _ => ⟨rfl, rfl⟩⟩
+  obtain ⟨start', rs', ps', heq, hinv⟩ := partitionLoop_spec cfg D req hreq' exts hgood req.start [] [] hinit
+  simp only [List.map_nil] at heq
+  let rs1 : List Req := if start' < req.stop then rs' ++ [⟨start', req.stop, req.step⟩] else rs'
+  let rs2 : List Req := if req.start = req.stop ∧ (ps'.map (·.m)).isEmpty then rs1 ++ [req] else rs1
+  have hpart : partition cfg req false exts = (rs2, ps'.map (·.m)) := by
+    unfold partition
+    rw [heq]
+  have hrs2 : ∀ r ∈ rs2, r.step = req.step ∧ 0 ≤ r.start ∧ r.start % req.step = 0 ∧ req.start ≤ r.start ∧ r.stop ≤ req.stop ∧
+      r.start ≤ r.stop ∧ r.stop % req.step = 0 := by
+    intro r hr
+    have hrs1 : ∀ r ∈ rs1, r.step = req.step ∧ 0 ≤ r.start ∧ r.start % req.step = 0 ∧ req.start ≤ r.start ∧ r.stop ≤ req.stop ∧
+        r.start ≤ r.stop ∧ r.stop % req.step = 0 := by
+      intro r hr
+      have hold : ∀ r ∈ rs', r.step = req.step ∧ 0 ≤ r.start ∧ r.start % req.step = 0 ∧ req.start ≤ r.start ∧ r.stop ≤ req.stop ∧
+          r.start ≤ r.stop ∧ r.stop % req.step = 0 := by
+        intro r hr
+        obtain ⟨a1, a2, a3, a4, a5, a6⟩ := hinv.reqs r hr
+        exact ⟨a1, by omega, a3, a2, a4, a5, a6⟩
+      by_cases hlt : start' < req.stop
+      · simp only [rs1, hlt, if_true] at hr
+        rcases List.mem_append.mp hr with hr | hr
+        · exact hold r hr
+        · simp at hr; subst hr
+          have := hinv.lo
+          exact ⟨rfl, by simp; omega, hinv.al, hinv.lo, Int.le_refl _, by simp; omega, hrb⟩
+      · simp only [rs1, hlt, if_false] at hr
+        exact hold r hr
+    by_cases hsp : req.start = req.stop ∧ (ps'.map (·.m)).isEmpty
+    · simp only [rs2, hsp, and_self, if_true] at hr
+      rcases List.mem_append.mp hr with hr | hr
+      · exact hrs1 r hr
+      · simp at hr; subst hr
+        exact ⟨rfl, hr0, hra, Int.le_refl _, Int.le_refl _, hrle, hrb⟩
+    · simp only [rs2, hsp, if_false] at hr
+      exact hrs1 r hr
+  refine ⟨rs2, ps', hpart, ?_, ?_, ?_, hrs2⟩
+  · intro p hp
+    rcases List.mem_append.mp hp with hp | hp
+    · exact ⟨(hinv.pieces p hp).1, (hinv.pieces p hp).2.1⟩
+    · simp only [fetchedPieces, List.mem_map] at hp
+      obtain ⟨r, hr, rfl⟩ := hp
+      obtain ⟨a1, a2, a3, _, _, _, _⟩ := hrs2 r hr
+      simp only
+      rw [a1]
+      exact ⟨a2, evalD_exact D hD req.step r.start r.stop hstep a3⟩
+  · intro p hp
+    rcases List.mem_append.mp hp with hp | hp
+    · exact (hinv.pieces p hp).2.2
+    · simp only [fetchedPieces, List.mem_map] at hp
+      obtain ⟨r, hr, rfl⟩ := hp
+      obtain ⟨_, _, _, a4, a5, _, _⟩ := hrs2 r hr
+      exact ⟨a4, a5⟩
+  · intro t ht1 ht2 ht3
+    have hcov : Covered ps' rs2 t := by
+      by_cases hts : t < start' ∨ (t = start' ∧ ps' ≠ [])
+      · refine (hinv.cov t ht1 ht2 ht3 hts).mono (fun p hp => hp) ?_
+        intro r hr
+        have h1 : r ∈ rs1 := by
+          by_cases hlt : start' < req.stop
+          · simp only [rs1, hlt, if_true]; exact List.mem_append_left _ hr
+          · simp only [rs1, hlt, if_false]; exact hr
+        by_cases hsp : req.start = req.stop ∧ (ps'.map (·.m)).isEmpty
+        · simp only [rs2, hsp, and_self, if_true]; exact List.mem_append_left _ h1
+        · simp only [rs2, hsp, if_false]; exact h1
+      · have hge : start' ≤ t := by omega
+        by_cases hlt : start' < req.stop
+        · refine Or.inr ⟨⟨start', req.stop, req.step⟩, ?_, hge, ht2⟩
+          have h1 : (⟨start', req.stop, req.step⟩ : Req) ∈ rs1 := by
+            simp only [rs1, hlt, if_true]; simp
+          by_cases hsp : req.start = req.stop ∧ (ps'.map (·.m)).isEmpty
+          · simp only [rs2, hsp, and_self, if_true]; exact List.mem_append_left _ h1
+          · simp only [rs2, hsp, if_false]; exact h1
+        · have hteq : t = start' := by omega
+          have hps : ps' = [] := by
+            by_cases hp : ps' = []
+            · exact hp
+            · exact absurd (Or.inr ⟨hteq, hp⟩) hts
+          have hfr := hinv.fresh hps
+          have hsp : req.start = req.stop ∧ (ps'.map (·.m)).isEmpty := by
+            subst hps; refine ⟨by omega, rfl⟩
+          refine Or.inr ⟨req, ?_, by omega, ht2⟩
+          simp only [rs2, hsp, and_self, if_true]; simp
+    rcases hcov with ⟨p, hp, h⟩ | ⟨r, hr, h⟩
+    · exact ⟨p, List.mem_append_left _ hp, h⟩
+    · exact ⟨⟨r.start, r.stop, evalD D r.start r.stop r.step⟩, List.mem_append_right _ (List.mem_map.mpr ⟨r, hr, rfl⟩), h⟩
+
+/-- **a cache hit answers exactly**: with good extents under the request's key, `handleHit`
+    (any-step mode, repaired `minTime`) returns the downstream's direct answer -/
+theorem handleHit_resp (g : Bool) (D : Down) (hD : D.Sorted) (req : Req) (hreq : Aligned req)
+    (exts : List Extent) (hgood : ∀ e ∈ exts, GoodExtent D req.step e) :
+    (handleHit ⟨true, g⟩ D req exts false).1 = evalD D req.start req.stop req.step := by
+  obtain ⟨rs, ps, hpart, hex, hin, hcov, _⟩ := partition_spec ⟨true, g⟩ D hD req hreq exts hgood
+  have hmerge := merge_exact hex hin hcov
+  have hdirect := evalD_exact D hD req.step req.start req.stop hreq.1 hreq.2.2.2.1
+  have hmap : (ps ++ fetchedPieces D rs).map (·.m) = ps.map (·.m) ++ rs.map (fun r => evalD D r.start r.stop r.step) := by
+    simp [fetchedPieces, List.map_map, Function.comp_def]
+  rw [hmap] at hmerge
+  unfold handleHit
+  rw [hpart]
+  simp only
+  by_cases hemp : rs.isEmpty = true
+  · have : rs = [] := by simpa using hemp
+    subst this
+    simp only [List.isEmpty_nil, if_true]
+    simp only [List.map_nil, List.append_nil] at hmerge
+    exact hmerge.unique hdirect
+  · simp only [hemp, Bool.false_eq_true, if_false]
+    simp only [List.map_map, Function.comp_def]
+    exact hmerge.unique hdirect
 
 end Thanos.ResultsCache
